@@ -27,7 +27,8 @@ SPEC = {
 }
 
 KF_DRIFT = "C18:repair-mutate:returns-api-drift"
-CORPUS = ["assgn", "assgn2", "nest", "expr", "numeral", "padnum", "nestlist", "leftrec"]
+CORPUS = ["assgn", "assgn2", "nest", "expr", "numeral", "padnum", "nestlist", "leftrec", "eps", "nullchain", "lines",
+          "nullable-forward-pair", "nullable-forward-layout", "optrec"]
 
 
 def known_eval_key(ctx, f, g, tl, got, ref, text):
@@ -73,6 +74,9 @@ def judge_string(ctx, gname, g, m, f, text, solver, s, tl, cls):
     st, c = ctx.guarded(solver.check, s, timeout=25)
     if st == "watchdog":
         ctx.inconclusive("watchdog")
+    elif st == "exc" and type(c).__name__ == "UnknownResultError" and R2.has_numeric_quantifier(f):
+        # three-valued evaluation may stay UNKNOWN under a numeric quantifier (C03 judges UNKNOWN only without one)
+        ctx.inconclusive("unknown-under-numeric-quantifier")
     elif st == "exc":
         key = "C18:smt:not_implemented_failure-arity" if "not_implemented_failure" in str(c) else None
         ctx.violation(key, f"check(str) raises {type(c).__name__}: {str(c)[:80]}", wit)
@@ -89,7 +93,9 @@ def judge_string(ctx, gname, g, m, f, text, solver, s, tl, cls):
     else:
         want = "tree" if expected else "SyntaxError" if not member else "SemanticError"
         got = "tree" if st == "ok" else type(p).__name__
-        if got != want:
+        if got == "UnknownResultError" and R2.has_numeric_quantifier(f):
+            ctx.inconclusive("unknown-under-numeric-quantifier")
+        elif got != want:
             key = None
             if "not_implemented_failure" in str(p):
                 key = "C18:smt:not_implemented_failure-arity"
